@@ -51,3 +51,9 @@ package lexeme
 //@   ensures tag(recovered) != 0 && len(name) != 0 ==> panics && typeis(pv, errors.DocumentError)
 //@   ensures len(name) != 0 && typeis(recovered, errors.DocumentError) ==> unbox(pv, errors.DocumentError).index == unbox(recovered, errors.DocumentError).index && unbox(pv, errors.DocumentError).file == unbox(recovered, errors.DocumentError).file && unbox(pv, errors.DocumentError).code == unbox(recovered, errors.DocumentError).code
 //@   ensures len(name) != 0 && (typeis(recovered, errors.Errorf) || typeis(recovered, errors.ErrorCode)) ==> unbox(pv, errors.DocumentError).index == lex.begin && unbox(pv, errors.DocumentError).hasIndex && unbox(pv, errors.DocumentError).file == lex.file && unbox(pv, errors.DocumentError).code == errCodeOf(recovered)
+
+//@ func (LexEventType).String()
+//@   props C07
+//@   trusted "generated stringer: an index table over the declared constants (not re-verified); panics for other values"
+//@   maypanic
+//@   pure
